@@ -207,6 +207,23 @@ def rule_cli_guard(ctx, R):
     plain = [s for s in writes if s["name"] == "write_fmt" and any(m(C(endswith("Argument::new_display"), Par(line)), x) for x in walk(s["args"][1]))]
     ctx.check(len(plain) >= 1, "CLI-GUARD", b, "prints-line-unchanged", b.span,
               "the uncoloured branch must print the `line` parameter itself")
+    # CLI-BUF: a buffer indexed with match offsets (byte offsets, 0..=line.len()) must have line.len()+1 slots
+    idxs = [s for s in S.calls if core.callee_base(s["key"]) in ("core::ops::IndexMut::index_mut", "core::ops::Index::index")
+            and any(x[0] == "call" and isinstance(x[1], str) and x[1].startswith("daachorse::Match::") for x in walk(s["args"][1]))]
+    bufs = []
+    for s in idxs:
+        if not any(core.same(s["args"][0], x) for x in bufs):
+            bufs.append(s["args"][0])
+    for buf in bufs:
+        defs = []
+        if buf[0] == "var":
+            defs = [pnorm(t) for k, t, bb in root.T.container_defs(buf[2]) if k in ("call", "rv")]
+        else:
+            defs = [buf]
+        ok = any(m(C("alloc::vec::from_elem", ANY, B("Add", C("core::str::len", Par(line)), K(1))), t) for t in defs)
+        ctx.check(ok, "CLI-BUF", b, "offset-buffer-length", b.span,
+                  "a buffer indexed by Match::start()/end() (byte offsets up to line.len()) must be created with line.len() + 1 slots "
+                  "(byte length, not a character count); created as %s" % [show(t) for t in defs])
     # both search calls are on the same (pma, line)
     for s in S.calls:
         if s["key"].startswith("daachorse::") and len(s["args"]) == 2:
@@ -238,6 +255,14 @@ def rule_cli_pats(ctx, R):
                 srcs.add(x[3])
     ctx.check(srcs == {"patterns", "pattern_file"}, "CLI-PATS", b, "both-sources", b.span,
               "patterns from -p and from -f must feed the same vector passed to DoubleArrayAhoCorasick::new; sources %s" % sorted(srcs))
+    # -p is split exactly on '\n' (documented: "patterns separated with new lines"); a pattern may contain '\r'
+    psplit = [s for s in S.calls if s["args"] and any(x[0] == "field" and x[3] == "patterns" for x in walk(s["args"][0])) and s["key"].startswith("core::str::")
+              and s["name"] not in ("is_empty", "len", "to_string", "as_bytes")] if S.calls else []
+    oks = len(psplit) == 1 and psplit[0]["name"] == "split" and len(psplit[0]["args"]) == 2 and \
+        psplit[0]["args"][1][0] == "const" and psplit[0]["args"][1][1] == 10
+    ctx.check(oks, "CLI-PATS", b, "p-split-on-newline", b.span,
+              "the -p argument must be split with split('\\n') only (no CR stripping / trimming: patterns are arbitrary strings); found %s"
+              % [(s["name"], [show(a) for a in s["args"][1:]]) for s in psplit])
     # the build error is propagated, not unwrapped
     site = (b.path, news[0]["bb"])
     bad = [s for s in S.calls if core.callee_base(s["key"]) in ("core::result::Result::unwrap", "core::result::Result::expect",
